@@ -51,6 +51,22 @@ NextSel == /\ ~done
            /\ done' = TRUE
 SpecSel == Init /\ [][NextSel]_done
 
+(* the TYPE of alpha x limits given / default (harness/c02.py alpha_type_cases): alpha is a number in  *)
+(* [1e-6, 0.3] - a Python float or a numpy scalar of any float type that represents it.  Models with   *)
+(* independent marginals (the default upper limit marginal_icdf(1 - 0.2^n alpha) is then a closed-form  *)
+(* quantile, no Monte-Carlo sample), explicit coarse cell sizes.                                        *)
+(*   dim 2: alpha = 2^-10 (exact in all four types; 1 - 0.04 alpha is 1 in half precision)              *)
+(*   dim 3: alpha = float32(2e-6) (not a float16; 1 - 0.008 alpha is 1 in single precision)             *)
+(* An exception on any of them is a verdict (UnexpectedException); the content clauses are judged with  *)
+(* float(alpha).                                                                                        *)
+AlphaTypeCases ==
+    {c \in [dim : {2, 3}, atype : {"float", "float64", "float32", "float16"}, limits : {"explicit", "default"}] :
+        c.atype = "float16" => c.dim = 2}
+NextAlphaType == /\ ~done
+                 /\ \A c \in AlphaTypeCases : PrintT(<<"BEH", ToJson(c)>>)
+                 /\ done' = TRUE
+SpecAlphaType == Init /\ [][NextAlphaType]_done
+
 (* the same with a key: densities K in [1..SelN -> 0..SelMaxV], probabilities P = K div 2   *)
 (* (a monotone, not injective image), limits over the attainable sums                     *)
 NextSelKey == /\ ~done
